@@ -4,6 +4,7 @@ import sys
 import numpy as np
 
 from .. import gen, install, loops, models
+from .c05 import geo_dist
 from ..common import COSTS, DISTANCES, EPS, cost, distance, pick, shard_count
 
 sys.setrecursionlimit(20000)
@@ -37,6 +38,8 @@ class _Explainer:
     def __init__(self, mods, pts, retained, t, distname, costname, ctx=None):
         self.ctx = ctx
         self.model_checks = 0
+        self.geo_checks = 0
+        self.distname = distname
         self.pts = pts
         self.ret = retained
         self.retset = set(int(r) for r in retained)
@@ -95,6 +98,21 @@ class _Explainer:
                                                f'is on the accepting side of t={self.t!r} ({self.costname})', a, b)
         pt = self.pts[a:b + 1]
         d = np.asarray(self.dist(pt, pt[0], pt[-1]), dtype=float)
+        if self.ctx is not None and self.geo_checks < 4:
+            self.geo_checks += 1
+            big_int = np.asarray(pt).dtype.kind in 'iu' and float(np.max(np.abs(pt))) > 1e8
+            if self.distname == 'perpendicular' and big_int:
+                # int64 products inside the perpendicular distance wrap at this magnitude: known finding F-2 of C20
+                self.ctx.ood('distance-model', 'perpendicular-on-large-int64(F-2)')
+            else:
+                g = geo_dist(pt, self.distname)
+                sc = float(np.max(np.abs(pt))) + float(np.hypot(*(np.asarray(pt[-1], float) - np.asarray(pt[0], float))))
+                tol_ = 64 * EPS * sc + 1e-9 * g
+                if np.all(np.isfinite(g)) and np.all(np.isfinite(d)):
+                    self.ctx.check(bool(np.all(np.abs(d - g) <= tol_)), 'distance-model', f'primitive:distance-model:{self.distname}',
+                                   f'{self.distname} distances of segment [{a},{b}] to its chord differ from the geometry '
+                                   f'(max deviation {float(np.max(np.abs(d - g))):.3g}, tol {float(np.max(tol_)):.3g})',
+                                   segment=[a, b], got=d[:8], geometry=g[:8])
         dmax = np.max(d[1:-1])
         scale = float(np.max(np.abs(pt))) + float(np.hypot(*(np.asarray(pt[-1], float) - np.asarray(pt[0], float))))
         tol = max(64 * EPS * scale, EPS)
